@@ -4,6 +4,7 @@ import TongoProofs.Lemmas.HashMemo
 import TongoProofs.Lemmas.CellNoPanic
 import TongoProofs.Lemmas.CellErr
 import TongoProofs.C07
+import TongoProofs.C16
 import TongoGen.LevelMask
 /-! Property C02 — cell hash, depth and level follow the TON representation-hash definition.
 
@@ -238,6 +239,45 @@ theorem hash_structural (H : List UInt8 → List UInt8) (heap1 heap2 : Memo.Heap
   | err e => rw [e2] at a2; simp only [Memo.Agrees] at a2; rw [s1] at a2; cases a2
   | panic e => rw [e2] at a2; simp only [Memo.Agrees] at a2; rw [s1] at a2; cases a2
 
+
+/-- **The other forms of the hash.** On well-formed trees within the depth limit whose hash has 32 bytes (every
+SHA-256 digest): `Hash256()` is the representation hash of the definition (as a 32-byte array), `HashString()` is its
+lower-case hex, and `Level()` is the bit length of the mask. -/
+theorem forms_eq_spec (H : List UInt8 → List UInt8) (c : Cell) (hwf : Spec.WFExotic c)
+    (hd : Spec.tooDeep c = false) (hlen : (Spec.reprHash H c).length = 32) :
+    Cell.hash256 H c = .ok (Spec.reprHash H c) ∧ Cell.hashString H c = .ok (Hex.encode (Spec.reprHash H c)) ∧
+    Cell.level c = Spec.cellLevel c := by
+  have e := reprHash_eq_spec H c hwf hd
+  have hm : c.mask < 8 := by
+    cases c with
+    | mk ty mask bits refs =>
+      have hwf' : Spec.wfExotic (.mk ty mask bits refs) = true := hwf
+      simp only [Spec.wfExotic, Spec.wfNode, Bool.and_eq_true, decide_eq_true_eq] at hwf'
+      show mask < 8
+      omega
+  refine ⟨?_, ?_, ?_⟩
+  · simp only [Cell.hash256, e, Outcome.bind_ok, pure, hlen, Nat.sub_self, List.replicate_zero, List.append_nil]
+    rw [List.take_of_length_le (by omega)]
+  · simp only [Cell.hashString, e, Outcome.bind_ok, pure]
+  · simp only [Cell.level, Spec.cellLevel, (level_facts c.mask hm).1]
+
+/-- **The hash field of a decoded message / transaction is the hash of the definition** (composition with C16, agent
+msg: `C16.msg_hash_is_cell_hash`, `C16.tx_hash_is_cell_hash` say the field is `Cell.reprHash` of the source cell; C02
+says that is the representation hash of the TON definition). -/
+theorem msg_tx_hash_is_spec (H : List UInt8 → List UInt8) (c : Cell) (hwf : Spec.WFExotic c)
+    (hd : Spec.tooDeep c = false) :
+    (∀ m, Message.unmarshalMessage H c = .ok m → m.hash = Spec.reprHash H c) ∧
+    (∀ t, Message.captureTx H c = .ok t → t.hash = Spec.reprHash H c ∧ t.source = c) := by
+  have e := reprHash_eq_spec H c hwf hd
+  constructor
+  · intro m hm
+    have := C16.msg_hash_is_cell_hash H c m hm
+    rw [e] at this
+    injection this with this; exact this.symm
+  · intro t ht
+    obtain ⟨h1, h2⟩ := C16.tx_hash_is_cell_hash H c t ht
+    rw [e] at h1
+    injection h1 with h1; exact ⟨h1.symm, h2⟩
 
 /-- **Hashing the cells of any parsed bag of cells is total and agrees with the definition** (composition with C07,
 agent boc's `parseBoc`/`parse_sound`). For every byte string: if the model of `DeserializeBoc` returns cells, then every
